@@ -89,8 +89,8 @@ func Render(waSrc string) (wz string, err error) {
 	return r.b.String(), nil
 }
 
-func (r *renderer) w(s string)  { r.b.WriteString(s) }
-func (r *renderer) nl()         { r.b.WriteString("\n" + strings.Repeat("\t", r.indent)) }
+func (r *renderer) w(s string) { r.b.WriteString(s) }
+func (r *renderer) nl()        { r.b.WriteString("\n" + strings.Repeat("\t", r.indent)) }
 func (r *renderer) name(id *ast.Ident) string {
 	if r.recvObj != nil && id.Obj == r.recvObj {
 		return token.K_我的
@@ -748,4 +748,3 @@ var englishPairs = func() [][2]string {
 	}
 	return out
 }()
-
